@@ -57,6 +57,14 @@ for _tag, _txt, _path in (("PAIR0", _p0, _P0), ("PAIR1", _p1, _P1)):
         missing.append("%s wr_ready branch (neither the pinned nor the repaired form) in %s" % (_fn, _path))
     extra_text.append("Definition C08_%s_STOP_WRITABLE_FIXED : bool := %s.  (* %s %s: clear of s->writable guarded by nni_lmq_full(&s->wmq) *)"
                       % (_tag, "true" if _fixed else "false", _path, _fn))
+    # the stale-completion repair (fix ec0a8f1): send_sched(s, p) returns unless s->p == p, and
+    # pipe_recv_cb parks a message (rd_ready) only for the current peer
+    _X = "pair0" if _tag == "PAIR0" else "pair1"
+    _st1 = re.search(_X + r"_send_sched\(" + _X + r"_sock \*s, " + _X + r"_pipe \*p\)\s*\{.*?nni_mtx_lock\(&s->mtx\);\s*(?://[^\n]*\n\s*)*if\s*\(s->p\s*!=\s*p\)\s*\{\s*nni_mtx_unlock\(&s->mtx\);\s*return;", _txt, re.S)
+    _st2 = re.search(r"\}\s*else if\s*\(s->p\s*==\s*p\)\s*\{\s*s->rd_ready\s*=\s*true;\s*\}\s*else\s*\{(?:\s*//[^\n]*\n)*\s*nni_msg_free\(msg\);", _txt)
+    _st3 = re.search(_X + r"_send_sched\(p->pair,\s*p\);", _txt)
+    extra_text.append("Definition C08_%s_STALE_FIXED : bool := %s.  (* %s: send_sched(s, p) and the rd_ready branch of pipe_recv_cb act only for the current peer *)"
+                      % (_tag, "true" if (_st1 and _st2 and _st3) else "false", _path))
     # shape lints: the branches the model mirrors
     _g(r"if\s*\(s->p\s*!=\s*NULL\)\s*\{[^}]*return\s*\(NNG_EBUSY\);", _txt, "pipe_start: s->p != NULL => NNG_EBUSY", _path)
     _g(r"if\s*\(s->p\s*==\s*p\)\s*\{\s*s->p\s*=\s*NULL;", _txt, "pipe_stop: s->p == p => s->p = NULL", _path)
